@@ -392,17 +392,22 @@ func (e *Expression) UnmarshalJSON(data []byte) (err error) {
 	}
 
 	if len(c.Right) > 0 && looksLikeRangeBoundary(c.Right) {
-		var boundary RangeBoundary
-		err = json.Unmarshal(c.Right, &boundary)
+		// decode the bounds like any other operand so integers keep their full precision
+		var raw struct {
+			Min       *Expression `json:"min"`
+			Max       *Expression `json:"max"`
+			Inclusive bool        `json:"inclusive"`
+		}
+		err = json.Unmarshal(c.Right, &raw)
 		if err != nil {
 			return err
 		}
-		if !IsExpr(boundary.Min) {
-			boundary.Min = literalToExpr(toIntIfNecessary(boundary.Min))
+		boundary := RangeBoundary{Inclusive: raw.Inclusive}
+		if raw.Min != nil {
+			boundary.Min = raw.Min
 		}
-
-		if !IsExpr(boundary.Max) {
-			boundary.Max = literalToExpr(toIntIfNecessary(boundary.Max))
+		if raw.Max != nil {
+			boundary.Max = raw.Max
 		}
 		e.Right = &boundary
 	} else if len(c.Right) > 0 {
